@@ -18,6 +18,7 @@ Section TyInd.
   Hypothesis HWrap : forall a, P a -> P (TWrap a).
   Hypothesis HSet : forall a, P a -> P (TSet a).
   Hypothesis HDict : forall a, P a -> P (TDict a).
+  Hypothesis HMap : forall k a, P k -> P a -> P (TMap k a).
   Hypothesis HTuple : forall ts, Forall P ts -> P (TTuple ts).
   Hypothesis HUnion : forall ts, Forall P ts -> P (TUnion ts).
   Hypothesis HClass : forall c, P (TClass c).
@@ -33,6 +34,7 @@ Section TyInd.
     | TWrap a => HWrap a (ty_ind' a)
     | TSet a => HSet a (ty_ind' a)
     | TDict a => HDict a (ty_ind' a)
+    | TMap k a => HMap k a (ty_ind' k) (ty_ind' a)
     | TTuple ts => HTuple ts ((fix go (l: list ty) : Forall P l :=
                                  match l with [] => Forall_nil _ | x :: r => Forall_cons _ (ty_ind' x) (go r) end) ts)
     | TUnion ts => HUnion ts ((fix go (l: list ty) : Forall P l :=
@@ -75,8 +77,16 @@ Section Unfold.
   Proof. destruct fuel; reflexivity. Qed.
   Lemma sf_dict fuel a st :
     SF fuel (TDict a) st = match SF fuel a st with
-                           | SOk (s, st1) => SOk (dict_sk (or_none a s), st1)
+                           | SOk (s, st1) => SOk (dict_sk (or_none a s) (Some (render (ty_sk "string"))), st1)
                            | SFuel => SFuel | SErr => SErr end.
+  Proof. destruct fuel; reflexivity. Qed.
+  Lemma sf_map fuel k a st :
+    SF fuel (TMap k a) st = match SF fuel a st with
+                            | SOk (s, st1) =>
+                                match SF fuel k st1 with
+                                | SOk (sk', st2) => SOk (dict_sk (or_none a s) (or_none k sk'), st2)
+                                | SFuel => SFuel | SErr => SErr end
+                            | SFuel => SFuel | SErr => SErr end.
   Proof. destruct fuel; reflexivity. Qed.
   Lemma sf_tuple fuel ts st :
     SF fuel (TTuple ts) st = match map_st (SF fuel) ts [] st with
@@ -234,7 +244,7 @@ Section Generic.
   Hypothesis G_ty : forall ks n, is_type_name n = true -> Sp ks (ty_sk n).
   Hypothesis G_any : forall ks, Sp ks sk0.
   Hypothesis G_arr : forall ks o u, (forall d, o = Some d -> G ks d) -> Sp ks (arr_sk o u).
-  Hypothesis G_dict : forall ks o, (forall d, o = Some d -> G ks d) -> Sp ks (dict_sk o).
+  Hypothesis G_dict : forall ks o p, (forall d, o = Some d -> G ks d) -> (forall d, p = Some d -> G ks d) -> Sp ks (dict_sk o p).
   Hypothesis G_tuple : forall ks l, Forall (G ks) l -> Sp ks (tuple_sk l).
   Hypothesis G_union : forall ks l, l <> [] -> Forall (G ks) l -> Sp ks (union_sk l).
   Hypothesis G_ref : forall ks c, In c ks -> Sp ks (ref_sk (cfg.(c_prefix) ++ "/" ++ c)).
@@ -325,7 +335,13 @@ Section Generic.
         apply G_arr. apply or_none_ok. apply S_G. exact B.
       + rewrite sf_dict in Hs. destruct (schema_fuel E cfg 0 t st) as [[s1 st1]| |] eqn:E1; try discriminate.
         inversion Hs; subst. destruct (IHt _ _ _ E1 HI) as (A & B & C). repeat split; auto.
-        apply G_dict. apply or_none_ok. apply S_G. exact B.
+        apply G_dict; [apply or_none_ok; apply S_G; exact B|].
+        intros d Hd. inversion Hd; subst. apply S_G. apply G_ty. reflexivity.
+      + rewrite sf_map in Hs. destruct (schema_fuel E cfg 0 t2 st) as [[s1 st1]| |] eqn:E1; try discriminate.
+        destruct (schema_fuel E cfg 0 t1 st1) as [[s2 st2]| |] eqn:E2; try discriminate.
+        inversion Hs; subst. destruct (IHt2 _ _ _ E1 HI) as (A & B & C). destruct (IHt1 _ _ _ E2 A) as (A2 & B2 & C2).
+        repeat split; auto; [|eapply incl_tran; eauto].
+        apply G_dict; [apply or_none_ok; apply S_G; eapply S_mono; eauto|apply or_none_ok; apply S_G; exact B2].
       + rewrite sf_tuple in Hs. destruct (map_st (schema_fuel E cfg 0) ts [] st) as [[ss st1]| |] eqn:E1; try discriminate.
         inversion Hs; subst. destruct (map_st_ok _ _ H _ _ _ _ E1 HI) as (A & B & C & _). repeat split; auto.
       + rewrite sf_union in Hs. destruct ts as [|t0 tr]; try discriminate.
@@ -368,7 +384,13 @@ Section Generic.
         apply G_arr. apply or_none_ok. apply S_G. exact B.
       + rewrite sf_dict in Hs. destruct (schema_fuel E cfg (S fuel) t st) as [[s1 st1]| |] eqn:E1; try discriminate.
         inversion Hs; subst. destruct (IHt _ _ _ E1 HI) as (A & B & C). repeat split; auto.
-        apply G_dict. apply or_none_ok. apply S_G. exact B.
+        apply G_dict; [apply or_none_ok; apply S_G; exact B|].
+        intros d Hd. inversion Hd; subst. apply S_G. apply G_ty. reflexivity.
+      + rewrite sf_map in Hs. destruct (schema_fuel E cfg (S fuel) t2 st) as [[s1 st1]| |] eqn:E1; try discriminate.
+        destruct (schema_fuel E cfg (S fuel) t1 st1) as [[s2 st2]| |] eqn:E2; try discriminate.
+        inversion Hs; subst. destruct (IHt2 _ _ _ E1 HI) as (A & B & C). destruct (IHt1 _ _ _ E2 A) as (A2 & B2 & C2).
+        repeat split; auto; [|eapply incl_tran; eauto].
+        apply G_dict; [apply or_none_ok; apply S_G; eapply S_mono; eauto|apply or_none_ok; apply S_G; exact B2].
       + rewrite sf_tuple in Hs. destruct (map_st (schema_fuel E cfg (S fuel)) ts [] st) as [[ss st1]| |] eqn:E1; try discriminate.
         inversion Hs; subst. destruct (map_st_ok _ _ H _ _ _ _ E1 HI) as (A & B & C & _). repeat split; auto.
       + rewrite sf_union in Hs. destruct ts as [|t0 tr]; try discriminate.
